@@ -83,7 +83,7 @@ func c16(c *Ctx) {
 			c.Violation("R1", key, at(gx.M, fn.Pos()), "delegate test or placeholder registration not found")
 			return
 		}
-		mu := varKey(fn.Recv()) + ".mtx"
+		mu := varKey(fn.Recv()) + resolvePath(gx.Pkg, typ, ".mtx")
 		bad := ""
 		for _, r := range regs {
 			d, _ := g.DominatedByNodes(r, toSet(tests))
@@ -113,7 +113,7 @@ func c16(c *Ctx) {
 	if fn := c.Fn(gx, "R1", "(*registration).Unregister"); fn != nil {
 		fU := lookupField(gx.Pkg, "registration", "unreg")
 		g := gx.FG(fn)
-		mu := varKey(fn.Recv()) + ".unregMu"
+		mu := varKey(fn.Recv()) + resolvePath(gx.Pkg, "registration", ".unregMu")
 		var reads, clears []*GNode
 		for _, x := range g.Nodes {
 			if x.N == nil {
